@@ -119,7 +119,7 @@ TABLE = {
 SHARED = (' Shared semantic lints over the files the property is anchored in: TRUTHY-zero (no truthiness test / `or` default on values for which 0 is legitimate), '
           'STATE-no-memory (no new module-, class- or instance-level memory outside the triaged inventory), ARG-binding (no transposed / crossed arguments at resolved calls), '
           'EDGE-orientation (no one-sided test on the ends of an undirected edge), EXC-handlers (exception types absorbed per function and how control leaves each handler, against the triaged inventory), '
-          'ALIAS-source (no edit of the original after taking a copy), IS-literal, STORE-overwrite (no statement-level setdefault), KEY-residue-identity (residue grouping keys contain chain, resid, resname, insertion code), CACHE-key|memo (a local memo table\'s key reads everything the memoised callee reads from its argument), ALIAS-caller-object (no in-place update of a collection parameter), ORD-snapshot (no recomputed property of self read inside the loop that rewrites what it is computed from), ALIAS-per-iteration (a container built before a loop is not named and filled per iteration), ITER-local-one-shot (a local one-shot iterator or a groupby group is walked once, in place), TAB-fused-strings (no two literals of a string table fused by a missing comma, over the modules of the call closure), HELPER-contract (the documented input/output table of every triaged shared helper in the call closure of what the rules read, compared with the interpretation of its current source), EXC-handlers|lookups (no new lookup under a lookup-error handler); where a processor class is anchored: MPT-every-molecule (run_system visits every molecule).')
+          'ALIAS-source (no edit of the original after taking a copy), IS-literal, STORE-overwrite (no statement-level setdefault), KEY-residue-identity (residue grouping keys contain chain, resid, resname, insertion code), CACHE-key|memo (a local memo table\'s key reads everything the memoised callee reads from its argument), ALIAS-caller-object (no in-place update of a collection parameter), ORD-snapshot (no recomputed property of self read inside the loop that rewrites what it is computed from), ALIAS-per-iteration (a container built before a loop is not named and filled per iteration), ITER-local-one-shot (a local one-shot iterator or a groupby group is walked once, in place), TAB-fused-strings (no two literals of a string table fused by a missing comma, over the modules of the call closure), PROV-attribute-view (no new selection of nodes by mere presence of an attribute through nx.get_node_attributes), HELPER-contract (the documented input/output table of every triaged shared helper in the call closure of what the rules read, compared with the interpretation of its current source), EXC-handlers|lookups (no new lookup under a lookup-error handler); where a processor class is anchored: MPT-every-molecule (run_system visits every molecule).')
 
 NA = {
     'C06': 'Correctness of a symmetry-reduced backtracking isomorphism search over all graph pairs: every clause is about the set of '
